@@ -79,3 +79,12 @@ Theorem C01_fees_routed :
       (forall x, x <> sudo s -> bal s' x a = bal s x a).
 Proof. exact fees_routed. Qed.
 Print Assumptions C01_fees_routed.
+
+(** Tie to the source: the fee formula cut out of [fee]
+    (crates/astria-sequencer/src/checked_actions/utils.rs, the two arithmetic statements) on every
+    run by tools/rs2v.py (Kernels/KFee.v) is the model's [fee_amount]; it cannot panic. *)
+From Astria Require Import Kernels.KernelEqFee.
+Theorem C01_kernels_tied : forall base mult var,
+  KFee.total_fee base mult var = Some (fee_amount base mult var).
+Proof. exact keq_total_fee. Qed.
+Print Assumptions C01_kernels_tied.
